@@ -11,7 +11,8 @@ PROPERTY = "C05"
 LEVEL = "model_checking"
 CODE = ["yowsup/layers/noise/layer_noise_segments.py:YowNoiseSegmentsLayer.receive",
         "yowsup/layers/noise/layer_noise_segments.py:YowNoiseSegmentsLayer.send"]
-BOUNDS = {"quick": "[+ caller reusing its read buffer (k<=2 frames, m<=3 chunks)] " 
+BOUNDS = {"quick": "[+ k<=2 frames, 2 chunks with a pause of 0..10^7 s and one of 4 events between them] " 
+                   "[+ caller reusing its read buffer (k<=2 frames, m<=3 chunks)] " 
                    "[+ call depth of every hand-over in the step; 1100 minimal frames (unconstrained bytes) in one read] " 
                    "streams of k<=3 frames cut into m<=3 chunks (every frame length 1..2^24-1, every cut position); "
                    "step harness: 1 pending + <=2 whole frames + partial next; send: every length 0..2^25; consumer failing on one delivery (k<=3 frames, m<=2 chunks)",
